@@ -472,6 +472,12 @@ def main():
     a = ap.parse_args()
     seed = int(os.environ.get('VERIF_SEED', '0'))
     procs = int(os.environ.get('VERIF_JOBS', '14'))
+    # one scratch directory per run (native generators that need files use it); removed by this process on exit
+    import atexit, shutil, tempfile
+    run_tmp = tempfile.mkdtemp(prefix='pyvc_run_', dir=os.environ.get('VERIF_SCRATCH', '/var/tmp'))
+    os.environ['VERIF_RUN_TMP'] = run_tmp
+    main_pid = os.getpid()
+    atexit.register(lambda: os.getpid() == main_pid and shutil.rmtree(run_tmp, ignore_errors=True))
     try:
         if a.setup:
             sys.exit(do_setup())
